@@ -85,16 +85,25 @@ def _pairs(report, lab, lean, n_sets, seed):
             inp = lab.tmp(".ref.bin")
             open(inp, "wb").write(ref)
             bufs = [g.rng.choice([1, 2, 5]) for _ in range(nstreams)]
-            ctx = {"proto": pname, "vals": vals if len(json.dumps(vals)) < 5000 else "(large)", "model_index": lab.idx, "seed": seed, "bufsizes": bufs}
+            # every other value set: the writers are handed the streams in several batches with empty batches before, between and
+            # after them (an empty batch is no item: the stream another language reads must be the same)
+            eb = k % 2 == 1 and nstreams > 0
+            ctx = {"proto": pname, "vals": vals if len(json.dumps(vals)) < 5000 else "(large)", "model_index": lab.idx, "seed": seed, "bufsizes": bufs,
+                   "empty_batches_interleaved": eb}
+            if eb:
+                report.count("value-sets.empty-batches-interleaved")
 
-            def cpp(infmt, outfmt, src):
+            def cpp(infmt, outfmt, src, eb=eb):
                 out = lab.tmp(".cpp." + ("bin" if outfmt == "b" else "ndjson"))
-                rc, err = lab.run_cpp(pname, infmt, outfmt, src, out, bufs)
+                rc, err = lab.run_cpp(pname, infmt, outfmt, src, out, bufs, empty_batches=eb)
                 return rc, err, out
 
-            def py(infmt, outfmt, src):
+            def py(infmt, outfmt, src, eb=eb, pj=pj):
                 out = lab.tmp(".py." + ("bin" if outfmt == "b" else "ndjson"))
-                r = lab.run_py([{"proto": pname, "infmt": infmt, "outfmt": outfmt, "in": src, "out": out}])[0]
+                job = {"proto": pname, "infmt": infmt, "outfmt": outfmt, "in": src, "out": out}
+                if eb:
+                    job.update(mode="hold", empty_batches=True, steps=[{"name": vlib.to_snake(s["name"]), "stream": s["stream"]} for s in pj])
+                r = lab.run_py([job])[0]
                 return r["rc"], r["exc"], out
             chains = {
                 "cpp-bin->py-bin": [(cpp, "b", "b"), (py, "b", "b")],
